@@ -3,12 +3,17 @@
   table (the candidates the real parser accepted), decidable versions of the
   stream hypotheses, and the per-call deliveries C02 demands.
 -/
-import Indi.Spec.Buf
+import Indi.Spec.Buf2
 
 namespace Indi.Buf
 
-/-- a parser given by the finite table of strings it accepts (message ids) -/
-def tableParse (table : List (Str × Nat)) (x : Str) : Option Nat := alookup x table
+/-- a parser given by the finite table of the strings that are complete XML documents:
+id 0 = not a valid message, any other id = that message -/
+def tableParse (table : List (Str × Nat)) (x : Str) : ParseRes Nat :=
+  match alookup x table with
+  | none => .notXml
+  | some 0 => .invalid
+  | some n => .msg n
 
 def hasOpenerB (tags : List Str) (x : Str) : Bool :=
   (List.range (x.length + 1)).any fun i => startsKnown tags (x.drop i)
@@ -21,19 +26,20 @@ def endingB (body : Str) : Bool :=
   | _ => false
 
 def admissibleB (table : List (Str × Nat)) (tags : List Str) (body : Str) (m : Nat) : Bool :=
-  startsKnown tags body && tableParse table body == some m &&
-    (List.range body.length).all (fun k => (tableParse table (body.take k)).isNone) && endingB body
+  startsKnown tags body && m != 0 && alookup body table == some m &&
+    (List.range body.length).all (fun k => (alookup (body.take k) table).isNone) && endingB body
 
 def fitsB (threshold : Option Nat) (x : Str) : Bool :=
   match threshold with
   | none => true
   | some t => x.length ≤ t
 
+/-- decidable `StreamOk2` (gaps of any length; bodies fit the threshold) plus (A1), (A2) on the table -/
 def streamOkB (table : List (Str × Nat)) (tags : List Str) (threshold : Option Nat)
     (segs : List (Seg Nat)) (final : Str) : Bool :=
-  segs.all (fun sg => admissibleB table tags sg.body sg.msg && noOpenerB tags sg.gap && fitsB threshold (sg.gap ++ sg.body))
-    && noOpenerB tags final && fitsB threshold final
-    && table.all (fun kv => hasOpenerB tags kv.1)          -- (A1) on the table
+  segs.all (fun sg => admissibleB table tags sg.body sg.msg && noOpenerB tags sg.gap && fitsB threshold sg.body)
+    && noOpenerB tags final
+    && table.all (fun kv => kv.2 == 0 || hasOpenerB tags kv.1)          -- (A1) on the table
     && tags.all (fun t => !t.contains '<')                -- (A2)
 
 /-- what each `append; process` call must deliver (C02): the messages whose last character arrived with that piece -/
@@ -43,6 +49,11 @@ def expectedCalls (segs : List (Seg Nat)) : Nat → Nat → List Str → List (L
     let seen' := seen + p.length
     let done' := countDone segs seen'
     ((segs.drop done).take (done' - done)).map (·.msg) :: expectedCalls segs seen' done' ps
+
+/-- decidable `Corrupt` for a table parser: no accepted string is a piece of, or an extension of, a suffix of `c` -/
+def corruptB (table : List (Str × Nat)) (c : Str) : Bool :=
+  (List.range c.length).all fun i =>
+    table.all fun kv => !(kv.1.isPrefixOf (c.drop i)) && !((c.drop i).isPrefixOf kv.1)
 
 /-- C11 on one observed session: bounded retention and only genuine deliveries -/
 def c11Holds (threshold : Option Nat) (ids : List Nat) (calls : List (List Nat × Nat)) : Bool :=
